@@ -12,6 +12,28 @@ import (
 
 var tObserve, tModel time.Duration
 
+// violations counts property violations found by the direct oracle in this run; the search stops at
+// the first one. Disagreements (model ≠ code) do not stop it: at most maxDisagreements are recorded,
+// the schedule goes on without the model (which is out of step from there on) and the direct
+// oracle — in particular the convergence oracle after the anti-entropy phase — still decides.
+var violations, disagreements int
+
+const maxDisagreements = 3
+
+// check compares one model answer with the implementation's observation.
+func (w *world) check(stream, model, impl string) {
+	if model == impl {
+		return
+	}
+	w.disagreed, w.nomodel = true, true
+	disagreements++
+	if disagreements <= maxDisagreements {
+		w.r.Check("C01", stream, append([]string(nil), w.ops...), model, impl)
+	} else {
+		w.r.Count("disagreements.not-recorded")
+	}
+}
+
 func init() { corr.RegisterArea("sync", Run) }
 
 // ---- one scheduler step = real code + model + oracle ------------------------------------------
@@ -83,9 +105,7 @@ func (w *world) after(op string, actor int, stream string) {
 		if ws := w.wires(); ws != "" {
 			impl += " |" + ws
 		}
-		if !w.r.Check("C01", stream, append([]string(nil), w.ops...), ans, impl) {
-			w.failed = true
-		}
+		w.check(stream, ans, impl)
 	}
 	for _, m := range w.emitted {
 		w.r.Count("emit." + string(rune(m.k)))
@@ -152,7 +172,7 @@ func (w *world) stepDrop(m *message) {
 	line := fmt.Sprintf("drop %d", m.mid)
 	w.ops = append(w.ops, line)
 	if !w.nomodel {
-		w.r.Check("C01", "sync.drop", append([]string(nil), w.ops...), w.r.Ask(line), "ok")
+		w.check("sync.drop", w.r.Ask(line), "ok")
 	}
 }
 
@@ -166,7 +186,7 @@ func (w *world) stepDup(m *message) {
 	line := fmt.Sprintf("dup %d %d", m.mid, c.mid)
 	w.ops = append(w.ops, line)
 	if !w.nomodel {
-		w.r.Check("C01", "sync.dup", append([]string(nil), w.ops...), w.r.Ask(line), "ok")
+		w.check("sync.dup", w.r.Ask(line), "ok")
 	}
 }
 
@@ -271,6 +291,15 @@ func (w *world) antiEntropy(rounds int) {
 	if !w.drain(w.r.Intn(3)) {
 		return
 	}
+	if w.phase != nil {
+		w.r.Count("phase.fixed")
+		for _, p := range w.phase {
+			if !w.exchange(p[0], p[1]) {
+				return
+			}
+		}
+		rounds = 0
+	}
 	for round := 0; round < rounds; round++ {
 		var pairs [][2]int
 		for i := 0; i < w.n; i++ {
@@ -289,8 +318,13 @@ func (w *world) antiEntropy(rounds int) {
 			}
 		}
 	}
-	// whatever the exchanges broadcast to third parties: any fate
-	if !w.drain(w.r.Intn(3)) {
+	// whatever the exchanges broadcast to third parties: any fate (lost, when the phase is fixed:
+	// the scenario wants exactly these exchanges and nothing else)
+	mode := w.r.Intn(3)
+	if w.phase != nil {
+		mode = 0
+	}
+	if !w.drain(mode) {
 		return
 	}
 	sets, heads := w.finalState()
@@ -318,9 +352,7 @@ func (w *world) antiEntropy(rounds int) {
 			parts = append(parts, sets[i]+" "+heads[i])
 		}
 		w.ops = append(w.ops, "state")
-		if !w.r.Check("C01", "sync.final", append([]string(nil), w.ops...), w.r.Ask("state"), "ok "+strings.Join(parts, " ; ")) {
-			w.failed = true
-		}
+		w.check("sync.final", w.r.Ask("state"), "ok "+strings.Join(parts, " ; "))
 	}
 	w.r.Count("converged")
 }
@@ -438,7 +470,7 @@ func Run(r *corr.Run) {
 		if err != nil {
 			r.Fatal("cannot build replicas: " + err.Error())
 		}
-		w.nomodel = os.Getenv("VERIF_SYNC_NOMODEL") != ""
+		w.nomodel = os.Getenv("VERIF_SYNC_NOMODEL") != "" || disagreements >= maxDisagreements+20
 		w.begin()
 		body(w)
 		if w.abort {
@@ -450,8 +482,16 @@ func Run(r *corr.Run) {
 		return !w.failed
 	}
 
-	// 1. guard-directed scenarios (fixed shapes, every seed)
-	for _, sc := range scenarios() {
+	// 1. guard-directed scenarios (fixed shapes, every seed), then the stale-fork family (quick: a
+	// seed-dependent quarter of it)
+	all := scenarios()
+	for _, sc := range staleForkFamily(r) {
+		if r.Quick() && r.Intn(4) != 0 {
+			continue
+		}
+		all = append(all, sc)
+	}
+	for _, sc := range all {
 		sc := sc
 		t0 := time.Now()
 		run(sc.n, sc.batch, sc.body)
@@ -459,7 +499,7 @@ func Run(r *corr.Run) {
 			fmt.Fprintf(os.Stderr, "scenario %q: %v steps=%d observe=%v model=%v\n", sc.name, time.Since(t0), r.Res.ModelSteps, tObserve, tModel)
 		}
 		r.Count("scenario")
-		if r.Issues() > 0 {
+		if violations > 0 {
 			return
 		}
 	}
@@ -477,7 +517,7 @@ func Run(r *corr.Run) {
 	if !r.Quick() {
 		randomUntil = time.Now().Add(time.Until(r.Deadline) / 2)
 	}
-	for k := 0; k < maxSched && time.Now().Before(randomUntil) && r.Issues() == 0; k++ {
+	for k := 0; k < maxSched && time.Now().Before(randomUntil) && violations == 0; k++ {
 		n := 2 + r.Intn(3)
 		steps := 8 + r.Intn(r.Pick(55, 120))
 		batch := 0
@@ -491,7 +531,7 @@ func Run(r *corr.Run) {
 	}
 
 	// 3. exhaustive short schedules, two replicas (thorough)
-	if !r.Quick() && r.Issues() == 0 {
+	if !r.Quick() && violations == 0 {
 		exhaustive(r, run)
 	}
 }
